@@ -340,6 +340,9 @@ pub fn record(seed: u64, runs: u64, target: usize, path: &str, max_profile: usiz
         if fam {
             input = family[k as usize].clone();
             op = ["write_all", "write_fmt", "write"][(k % 3) as usize];
+            if input.starts_with(b"\x1b]52") {
+                op = ["write", "vectored"][(k % 2) as usize];      // the entry points that report a count
+            }
         }
         bytes += input.len() as u64;
         // fault profile: 0 = short writes only, 1 = + Interrupted, 2 = + rare hard errors
